@@ -115,8 +115,10 @@ class Totality(object):
         if n:
             ctx.notes["max_steps_per_char"] = max(ctx.notes.get("max_steps_per_char", 0), used / float(n + 10))
         after = cache_probe()
-        if after["table"] != before["table"] or after["table_id"] != before["table_id"]:
-            ctx.finding("global-table-changed-by-translation", payload, "table before %r after %r" % (before["table"], after["table"]))
+        if after["table"] != before["table"] or after["table_id"] != before["table_id"] or after["reported"] != before["reported"]:
+            ctx.finding("global-table-changed-by-translation", payload, "table before %r after %r" % (before["reported"], after["reported"]))
+        if after["presets"] != before["presets"]:
+            ctx.finding("preset-changed-by-translation", payload, "presets before %r after %r" % (before["presets"], after["presets"]))
         MON.drain()
         if r[0] == "ok":
             ctx.count("returned")
